@@ -47,6 +47,17 @@ def cases(seed, tier):
                     T['policies'] = {'retry': {'count': 2, 'delay': 1}}
                 elif prng.random() < 0.2:
                     T['policies'] = {'wait-before': 1}
+        if i % 4 == 2:
+            # a with-items task (pause while some items are done, some are
+            # running and - with a concurrency limit - some not started)
+            plain = [T for Q in gdirect.all_programs(P) for T in Q['tasks']
+                     if not T.get('workflow') and not T.get('policies')]
+            if plain:
+                T = prng.choice(plain)
+                T['with_items'] = 'i in <% [0, 1, 2, 3] %>'
+                T['async'] = prng.random() < 0.7
+                if prng.random() < 0.6:
+                    T['concurrency'] = prng.randint(1, 3)
         det = gdirect.is_deterministic(P)
         outcomes = gdirect.gen_outcomes(prng, P, p_fail=0.2)
         for T in P['tasks']:
